@@ -6,7 +6,7 @@ from collections import Counter
 
 from .. import gen
 from ..probes import canon
-from ..tools import run_sync_side, run_async_side, decode_param
+from ..tools import run_sync_side, run_async_side, decode_param, decode
 
 ID = "C02"
 LEVEL = "exploration"
@@ -41,6 +41,18 @@ def _is_float_sum(spec):
     return any(isinstance(v, float) or (isinstance(v, list) and v and v[0] == "f") for v in vals)
 
 
+def _naive_float_sum(spec):
+    """What plain left-to-right addition gives (the mechanism of the recorded finding): canonical form, or None."""
+    from ..probes import canon
+    try:
+        total = decode_param(spec["params"]["start"]) if "start" in spec["params"] else 0
+        for v in spec["srcs"][0]:
+            total = total + decode(v)
+        return canon(total)
+    except Exception:  # noqa: BLE001
+        return None
+
+
 def classify(spec, case, sync, asy, what):
     tool = spec["tool"]
     if what == "mutated":
@@ -56,7 +68,9 @@ def classify(spec, case, sync, asy, what):
     if tool == "sorted" and not (spec["fns"] and spec["fns"][0]) and st[0] == "raise" and st[1] == "TypeError" \
             and at[0] == "ret" and case["flav"] not in ("list", "tuple"):
         return "sorted/fastpath-swallows-TypeError"
-    if tool == "sum" and st[0] == "ret" and at[0] == "ret" and _is_float_sum(spec):
+    if tool == "sum" and st[0] == "ret" and at[0] == "ret" and _is_float_sum(spec) and tuple(at[1:2]) == (_naive_float_sum(spec),):
+        # exactly the recorded mechanism: the result IS the uncompensated left-to-right sum.  Any other float
+        # deviation (a NaN where the builtin has inf, a lost sign of zero, ...) is a violation of its own
         return "sum/float-not-compensated"
     if tool == "sum" and st[0] == "raise" and st[1] == "TypeError" and at[0] == "ret" and \
             isinstance(decode_param(spec["params"].get("start", ["raw", 0])), str):
